@@ -704,6 +704,19 @@ theorem combined_get_first_wins {τ : Type} (conv : ν → Option τ) (c : CMD.S
     CMD.getTyped conv c k = .ok ((c.filterMap fun d => MD.getTyped conv d k).head?) :=
   ⟨cmd_get_first c k, cmd_getTyped_first conv c k hv⟩
 
+/-- `combined.items()` - and `values()`, `to_dict()`, which are read off it - over multimap states:
+exactly one pair per key of any wrapped dict, keys in order of first appearance (the key order of
+`lists()`), each carrying `combined[key]`, the first value of the first dict that has the key. -/
+theorem combined_items_first_wins (c : CMD.St κ ν) (hw : ∀ d ∈ c, MDSpec.WF d) :
+    ∃ l, CMD.itemsFirst c = .ok l ∧ l.map (·.1) = firstOcc [] (c.flatMap keys) ∧
+      l.map (·.1) = keys (CMD.lists c) ∧ ∀ p ∈ l, CMD.getitem c p.1 = .ok p.2 := by
+  obtain ⟨l, h1, h2, h3⟩ := cmd_itemsFirst_spec c hw []
+  have hk : l.map (·.1) = firstOcc [] (c.flatMap keys) := by rw [h2, firstOcc_eq_newKeys]; simp
+  exact ⟨l, h1, hk, by rw [hk, (cmd_lists_spec c (fun d hd => (hw d hd).1)).2.1], fun p hp => (h3 p hp).2⟩
+
+example : CMD.itemsFirst ([[(1, [10]), (2, [20])], [(2, [21]), (3, [30]), (1, [11, 12])]] : CMD.St Nat Nat)
+    = .ok [(1, 10), (2, 20), (3, 30)] := by rfl
+
 end CombinedMerge
 
 /-! ## pickling, copying, equality and hashing -/
